@@ -25,6 +25,7 @@ LENGTHS = range(0, 9)
 
 INT_VALS = [3, -1, 2, 5, -4, 1, 7, -2]
 FLT_VALS = [0.5, -0.25, 0.75, 1.5, -2.25, 0.125, 3.5, -0.625]
+UNIT_VALS = [1.0, 0.0, 0.0, 0.0, 0.0, 0.0, 0.0, 0.0]     # unit norm at every length: a length-blind norm predicate says True
 
 
 def mkform(vals, form, kind):
@@ -277,7 +278,7 @@ def diff_run(ctx, entries=None, report=None):
     ents = entries or table()
     nrand = ctx.n(6, 60)
     for e in ents:
-        valsets = [('int', INT_VALS), ('float', FLT_VALS)]
+        valsets = [('int', INT_VALS), ('float', FLT_VALS), ('float', UNIT_VALS)]
         for k in range(nrand):
             valsets.append(('float', [float(x) for x in np.round(ctx.rng.uniform(-2, 2, size=8), 3)]))
         for kind, allvals in valsets:
@@ -929,6 +930,9 @@ def build(ctx):
     for nm, f in sc3.items():
         for u in ('deg', 'rad'):
             tr(f'tr_{nm}_{u}', XYZ, (lambda f, u: lambda x, y, z: f(x, y, z, u))(f, u))
+    for u in ('deg', 'rad'):
+        tr(f'tr_tr2xyt_{u}', [('X', 'M33')], (lambda u: lambda X: b.tr2xyt(X, unit=u))(u),
+           sampler=lambda rng: [b.trot2(float(rng.uniform(-3, 3)), t=[float(v) for v in rng.uniform(-2, 2, size=2)])])
     tr('tr_transl_s', XYZ, lambda x, y, z: b.transl(x, y, z))
     tr('tr_transl_v', [('v', 'V3')], lambda v: b.transl(v))
     tr('tr_transl_list', [('v', 'V3')], lambda v: b.transl(list(v)))
